@@ -47,4 +47,26 @@ theorem gen_ripemd160_eq_spec (data : Bytes) (hlen : data.length < 2 ^ 61) :
   rw [C20Gen.gen_ripemd160 data hlen]
   exact congrArg Except.ok (C20.ripemd_eq_spec data)
 
+/-- **BIP340 verification end to end**: the translated `schnorr_verify` is BIP340 verification on all inputs of the right
+lengths (and raises on the others) -/
+theorem gen_verify_eq_spec (sha256 : Bytes → Bytes) (msg pk sig : Bytes)
+    (h1 : msg.length = 32) (h2 : pk.length = 32) (h3 : sig.length = 64) :
+    Gen.schnorr_verify sha256 msg pk sig = .ok (Spec.bip340Verify sha256 msg pk sig) := by
+  rw [C20Gen.gen_schnorr_verify]
+  exact C20.verify_eq_spec sha256 msg pk sig h1 h2 h3
+
+/-- **BIP340 signing end to end**: for every valid key, message and aux (non-zero nonce) the translated `schnorr_sign`
+returns a 64-byte signature — its self-verification never fires — and that signature is the one BIP340 specifies -/
+theorem gen_sign_ok (sha256 : Bytes → Bytes) (hlen : ∀ b, (sha256 b).length = 32)
+    (msg sk aux : Bytes) (h1 : msg.length = 32) (h2 : sk.length = 32) (h3 : aux.length = 32)
+    (hd : 1 ≤ Py.ofBE sk ∧ Py.ofBE sk < n)
+    (hk : ∀ x y, mul G (Py.ofBE sk) = some (x, y) →
+      Py.ofBE (Spec.taggedHash sha256 "BIP0340/nonce"
+        (Model.schnorrXor (Py.beBytes 32 (if y % 2 == 0 then Py.ofBE sk else n - Py.ofBE sk)) (Spec.taggedHash sha256 "BIP0340/aux" aux)
+          ++ Py.beBytes 32 x ++ msg)) % n ≠ 0) :
+    ∃ sig, Gen.schnorr_sign sha256 msg sk aux = .ok sig ∧ sig.length = 64 ∧
+      Spec.bip340Sign sha256 msg sk aux = some sig := by
+  obtain ⟨sig, hs, hl⟩ := C20.sign_never_fails_unconditional sha256 hlen msg sk aux h1 h2 h3 hd hk
+  exact ⟨sig, by rw [C20Gen.gen_schnorr_sign]; exact hs, hl, C20.sign_eq_spec sha256 msg sk aux sig hs⟩
+
 end C20GenCurve
